@@ -57,6 +57,40 @@ theorem rejoin_S (ds : List Decision) :
      if r.action = .allow then (⟨.allow, joinComma (ds.map (·.reason))⟩ : Decision) else r).action = S ds :=
   rejoin_action ds
 
+theorem text_atom_S (s : Option String) (cwd : String) (r : Bool) :
+    S (atomDecisions w rec h (.text s cwd r)) = S (scanArg rec s cwd r) := rfl
+
+theorem L_texts (ts : List String) (cwd : String) (r : Bool) :
+    L w rec h (ts.map fun t => Atom.text (some t) cwd r) = S (ts.flatMap fun t => scanArg rec (some t) cwd r) := by
+  induction ts with
+  | nil => rfl
+  | cons t ts ih => simp [L_cons, atomDecisions, List.flatMap_cons, ih]
+
+theorem scanArg_some (t : String) (cwd : String) (r : Bool) :
+    S (scanArg rec (some t) cwd r) = S (scanDecisions rec t cwd r) := by
+  unfold scanArg Py.truthy
+  by_cases ht : t.isEmpty = true
+  · have : t = "" := by simpa using ht
+    subst this
+    simp [scanDecisions, scanItems, scanAux]
+  · simp [ht]
+
+theorem S_flatMap_congr {α : Type} (l : List α) (f g : α → List Decision) (hfg : ∀ a ∈ l, S (f a) = S (g a)) :
+    S (l.flatMap f) = S (l.flatMap g) := by
+  induction l with
+  | nil => rfl
+  | cons a l ih =>
+    simp only [List.flatMap_cons, S_append]
+    rw [hfg a (List.mem_cons_self ..), ih (fun x hx => hfg x (List.mem_cons_of_mem _ hx))]
+
+/-- the text-only expansion kinds: model decisions = atoms -/
+theorem expansion_flat (wd : Word) (p : Part) (cwd : String) (r : Bool) :
+    S (expansionTexts rec wd p cwd r) = L w rec h (expansionAtoms wd p cwd r) := by
+  cases p <;> simp [expansionTexts, expansionAtoms, L_cons, atomDecisions]
+  · -- arith
+    rw [L_texts]
+    exact S_flatMap_congr _ _ _ (fun t _ => (scanArg_some rec t cwd r).symm)
+
 mutual
 
 theorem node_flat : ∀ (n : Node) (cwd : String) (r : Bool),
@@ -124,11 +158,14 @@ theorem node_flat : ∀ (n : Node) (cwd : String) (r : Bool),
     rw [combine_or_allow_S]
     simp only [S_append, L_append]
     rw [optCond_flat b cwd r, redirects_flat rs cwd r]
-  | .arithCmd e rs, cwd, r => by
+  | .arithCmd e raw rs, cwd, r => by
     simp only [aNode, flat]
     rw [combine_or_allow_S]
     simp only [S_append, L_append]
-    rw [optArith_flat e cwd r, redirects_flat rs cwd r]
+    rw [redirects_flat rs cwd r]
+    cases raw with
+    | none => simp only []; rw [optArith_flat e cwd r]
+    | some t => simp [L_cons, atomDecisions, scanArg_some]
   | .comment, _, _ => by simp [aNode, flat]
   | .empty, _, _ => by simp [aNode, flat]
   | .operator _, _, _ => by simp [aNode, flat, atomDecisions, S]
@@ -182,21 +219,33 @@ theorem cmdParts_flat (ctx : CmdCtx) (wd : Word) (pos : Nat) : ∀ (ps : List Pa
     | procsub dir cmd =>
       simp only [aCmdParts, flatCmdParts, S_append, L_append, S_cons, S_nil, wrapNonAllow_action]
       rw [ih, node_flat cmd cwd r]; simp
+    | array elems =>
+      simp only [aCmdParts, flatCmdParts, S_append, L_append]
+      rw [ih, words_flat elems cwd r]
     | param n o arg =>
-      simp only [aCmdParts, flatCmdParts, S_append, L_append, L_cons, L_nil, atomDecisions]
-      rw [ih]; simp
-    | paramLen _ => simpa [aCmdParts, flatCmdParts] using ih
-    | paramIndirect _ _ _ => simpa [aCmdParts, flatCmdParts] using ih
-    | arith _ => simpa [aCmdParts, flatCmdParts] using ih
-    | arithDeprecated _ => simpa [aCmdParts, flatCmdParts] using ih
-    | array _ => simpa [aCmdParts, flatCmdParts] using ih
-    | other _ => simpa [aCmdParts, flatCmdParts] using ih
+      simp only [aCmdParts, flatCmdParts, S_append, L_append]
+      rw [ih, expansion_flat]
+    | paramLen _ =>
+      simp only [aCmdParts, flatCmdParts, S_append, L_append]
+      rw [ih, expansion_flat]
+    | paramIndirect _ _ _ =>
+      simp only [aCmdParts, flatCmdParts, S_append, L_append]
+      rw [ih, expansion_flat]
+    | arith _ =>
+      simp only [aCmdParts, flatCmdParts, S_append, L_append]
+      rw [ih, expansion_flat]
+    | arithDeprecated _ =>
+      simp only [aCmdParts, flatCmdParts, S_append, L_append]
+      rw [ih, expansion_flat]
+    | other _ =>
+      simp only [aCmdParts, flatCmdParts, S_append, L_append]
+      rw [ih, expansion_flat]
 
-theorem wordParts_flat : ∀ (ps : List Part) (cwd : String) (r : Bool),
-    S (aWordParts w rec h ps cwd r) = L w rec h (flatWordParts w.syn ps cwd r)
+theorem wordParts_flat (wd : Word) : ∀ (ps : List Part) (cwd : String) (r : Bool),
+    S (aWordParts w rec h wd ps cwd r) = L w rec h (flatWordParts w.syn wd ps cwd r)
   | [], _, _ => by simp [aWordParts, flatWordParts]
   | p :: ps, cwd, r => by
-    have ih := wordParts_flat ps cwd r
+    have ih := wordParts_flat wd ps cwd r
     cases p with
     | cmdsub cmd =>
       simp only [aWordParts, flatWordParts, S_append, L_append, S_cons, S_nil, wrapNonAllow_action]
@@ -204,19 +253,41 @@ theorem wordParts_flat : ∀ (ps : List Part) (cwd : String) (r : Bool),
     | procsub dir cmd =>
       simp only [aWordParts, flatWordParts, S_append, L_append, S_cons, S_nil, wrapNonAllow_action]
       rw [ih, node_flat cmd cwd r]; simp
+    | array elems =>
+      simp only [aWordParts, flatWordParts, S_append, L_append]
+      rw [ih, words_flat elems cwd r]
     | param n o arg =>
-      simp only [aWordParts, flatWordParts, S_append, L_append, L_cons, L_nil, atomDecisions]
-      rw [ih]; simp
-    | paramLen _ => simpa [aWordParts, flatWordParts] using ih
-    | paramIndirect _ _ _ => simpa [aWordParts, flatWordParts] using ih
-    | arith _ => simpa [aWordParts, flatWordParts] using ih
-    | arithDeprecated _ => simpa [aWordParts, flatWordParts] using ih
-    | array _ => simpa [aWordParts, flatWordParts] using ih
-    | other _ => simpa [aWordParts, flatWordParts] using ih
+      simp only [aWordParts, flatWordParts, S_append, L_append]
+      rw [ih, expansion_flat]
+    | paramLen _ =>
+      simp only [aWordParts, flatWordParts, S_append, L_append]
+      rw [ih, expansion_flat]
+    | paramIndirect _ _ _ =>
+      simp only [aWordParts, flatWordParts, S_append, L_append]
+      rw [ih, expansion_flat]
+    | arith _ =>
+      simp only [aWordParts, flatWordParts, S_append, L_append]
+      rw [ih, expansion_flat]
+    | arithDeprecated _ =>
+      simp only [aWordParts, flatWordParts, S_append, L_append]
+      rw [ih, expansion_flat]
+    | other _ =>
+      simp only [aWordParts, flatWordParts, S_append, L_append]
+      rw [ih, expansion_flat]
 
 theorem word_flat : ∀ (wd : Word) (cwd : String) (r : Bool),
     S (aWord w rec h wd cwd r) = L w rec h (flatWord w.syn wd cwd r)
-  | .mk _ ps, cwd, r => by simp only [aWord, flatWord]; exact wordParts_flat ps cwd r
+  | .mk v ps, cwd, r => by simp only [aWord, flatWord]; exact wordParts_flat (.mk v ps) ps cwd r
+
+theorem condOperand_flat : ∀ (wd : Word) (cwd : String) (r : Bool),
+    S (aCondOperand w rec h wd cwd r) = L w rec h (flatCondOperand w.syn wd cwd r)
+  | .mk v ps, cwd, r => by
+    simp only [aCondOperand, flatCondOperand]
+    split
+    · exact wordParts_flat (.mk v ps) ps cwd r
+    · split
+      · rfl
+      · simp [L_cons, atomDecisions]
 
 theorem words_flat : ∀ (ws : List Word) (cwd : String) (r : Bool),
     S (aWords w rec h ws cwd r) = L w rec h (flatWords w.syn ws cwd r)
@@ -255,16 +326,17 @@ theorem redirects_flat : ∀ (rs : List Redir) (cwd : String) (r : Bool),
 theorem casePats_flat : ∀ (ps : List CasePat) (cwd : String) (r : Bool),
     S (aCasePats w rec h ps cwd r) = L w rec h (flatCasePats w.syn ps cwd r)
   | [], _, _ => by simp [aCasePats, flatCasePats]
-  | .mk _ body :: ps, cwd, r => by
-    simp only [aCasePats, flatCasePats, S_append, L_append]
+  | .mk pat body :: ps, cwd, r => by
+    simp only [aCasePats, flatCasePats, S_append, L_append, L_cons, L_nil, atomDecisions]
     rw [optNode_flat body cwd r, casePats_flat ps cwd r]
+    simp
 
 theorem cond_flat : ∀ (c : Cond) (cwd : String) (r : Bool),
     S (aCond w rec h c cwd r) = L w rec h (flatCond w.syn c cwd r)
-  | .unary _ o, cwd, r => by simp only [aCond, flatCond]; exact word_flat o cwd r
+  | .unary _ o, cwd, r => by simp only [aCond, flatCond]; exact condOperand_flat o cwd r
   | .binary _ l r', cwd, r => by
     simp only [aCond, flatCond, S_append, L_append]
-    rw [word_flat l cwd r, word_flat r' cwd r]
+    rw [condOperand_flat l cwd r, condOperand_flat r' cwd r]
   | .and l r', cwd, r => by
     simp only [aCond, flatCond, S_append, L_append]
     rw [cond_flat l cwd r, cond_flat r' cwd r]
